@@ -8,6 +8,7 @@ CONTRACT_MODULES = [
     'contracts.cfgparser',
     'contracts.info',
     'contracts.matcher',
+    'contracts.loader',
 ]
 
 CFG = 'cfgparser.ZConfigParser.'
@@ -62,8 +63,13 @@ PROPS = {
                                             'parse', 'handle_define')], 'standin': True},
     'C16': {'functions': [], 'standin': True},
     'C17': {'functions': [], 'standin': True},
-    'C18': {'functions': [], 'standin': True},
-    'C19': {'functions': [], 'standin': True},
+    'C18': {'functions': ['loader.BaseLoader.isPath', 'loader.BaseLoader.normalizeURL', 'loader._url_from_file',
+                          'loader.BaseLoader._raise_open_error', CFG + '__init__', CFG + 'handle_include'],
+            'rx': ['rx:loader._pathsep_rx'], 'standin': True},
+    'C19': {'functions': ['loader.Resource.__init__', 'loader.Resource.close', 'loader.Resource.__enter__',
+                          'loader.Resource.__exit__', 'loader.BaseLoader.createResource',
+                          'loader.BaseLoader.openResource', 'loader.BaseLoader._raise_open_error',
+                          'loader.BaseLoader.loadURL', 'loader.BaseLoader.loadFile'], 'standin': True},
     'C20': {'functions': [], 'standin': True},
 }
 
